@@ -493,8 +493,8 @@ def gen_cfg(rng):
 
 
 def gen_factors(rng, scale):
-    if rng.random() < 0.03:
-        return [rng.choice([1, 2]), 0, 0, 1, 1]                     # cE + cF = 0: accepted by the setter
+    if rng.random() < 0.06:
+        return [rng.choice([1, 2]), 0, 0, 1, 1]                     # cE = cF = 0: must be rejected by the setter
     return [rng.choice([0, 1, 1, 2, 2, 2, 3, 3, 10, 1000]), rng.choice([0, 1, 3, 3, 7]), rng.choice([0, 1, 2, 2, 5]),
             rng.choice([1, 1, 10, 1000, 10 ** 6]), rng.choice([1, 1, 2, 100, scale, 5 * scale])]
 
